@@ -83,6 +83,14 @@ def generate(rng, tier):
     nprog = 150 if tier == 'quick' else 3000
     for i in range(nprog):
         cases.append(('prog%d' % i, program_case(rng, rng.randrange(10, 60))))
+    # the idle loop JR -2 (and other backward jumps onto themselves) spun many times, master enable set and clear
+    for i, (code, ime) in enumerate([([0x18, 0xfe], 1), ([0x18, 0xfe], 0), ([0x00, 0x18, 0xfd], 1), ([0xc3, 0x00, 0xc0], 1),
+                                     ([0xaf, 0x28, 0xfd], 1), ([0x37, 0x38, 0xfd], 0)]):
+        lines = ['cpu.new', 'cpu.set 1 17 34 51 68 0 208 16 57328 49152']
+        for j, b in enumerate(code):
+            lines.append('w %d %d' % (0xc000 + j, b))
+        lines += ['w 65535 0', 'cpu.ime %d' % ime] + ['cpu.step'] * 14 + ['cpu.get']
+        cases.append(('spin%d' % i, lines))
     info = dict(exhaustive=True,
                 input_distribution=dict(opcode_flag_cases=len(cases) - nprog, random_programs=nprog),
                 samples=[dict(case=cases[5][0], script=cases[5][1]), dict(case=cases[-1][0], script=cases[-1][1][:40])])
